@@ -45,8 +45,9 @@ func answer(data ...[]byte) reaction {
 }
 
 func nonceReply(n uint32) []rscp.Message {
-	return []rscp.Message{{Tag: rscp.INFO_SERIAL_NUMBER, DataType: rscp.CString, Value: fmt.Sprintf("reply-%d", n)},
-		{Tag: rscp.Tag(0x00800000 | (n & 0xffff)), DataType: rscp.Uint32, Value: n}}
+	// the nonce first: Client.Send returns only the first message of a reply
+	return []rscp.Message{{Tag: rscp.Tag(0x00800000 | (n & 0xffff)), DataType: rscp.Uint32, Value: n},
+		{Tag: rscp.INFO_SERIAL_NUMBER, DataType: rscp.CString, Value: fmt.Sprintf("reply-%d", n)}}
 }
 func nonceRequest(n uint32) string {
 	return "send " + sxs([]rscp.Message{{Tag: rscp.INFO_REQ_SERIAL_NUMBER, DataType: rscp.None}, {Tag: rscp.Tag(0x00010000 | (n & 0xffff)), DataType: rscp.Uint32, Value: n}})
@@ -1442,7 +1443,7 @@ func layoutHistory(r *rng, calls []byte, behaviours []string) sessionCase {
 		}
 		q++
 		if cl == 'o' {
-			sc.calls = append(sc.calls, "send "+sxs([]rscp.Message{{Tag: rscp.Tag(0x00010000 | (q & 0xffff)), DataType: rscp.Uint32, Value: q}}))
+			sc.calls = append(sc.calls, "send1 "+sxs([]rscp.Message{{Tag: rscp.Tag(0x00010000 | (q & 0xffff)), DataType: rscp.Uint32, Value: q}}))
 		} else {
 			sc.calls = append(sc.calls, nonceRequest(q))
 		}
